@@ -267,4 +267,146 @@ theorem solve_head (P : Params σ δ) (m : RM σ δ) (k : Nat) (ds : List (Draw 
   refine ⟨_, by rw [hp]; exact hh, ?_⟩
   exact solve_pure P m k ds hw h j hj hroot
 
+/-- `clear()`, `clearQuery()`, destructor -/
+def Op.clears {D : Type} : Op σ D → Bool
+  | .clear | .clearQuery | .destroy => true
+  | _ => false
+
+/-- the problem definition object or its start states are replaced -/
+def Op.replacesQuery {D : Type} : Op σ D → Bool
+  | .setProblemDefinition .. | .setStartGoal .. => true
+  | _ => false
+
+/-- `true` iff, after the history, the tree may still hold motions of a query that was replaced
+(`setProblemDefinition` / `setStartAndGoalStates` on a non-empty tree) with no `clear()` since. -/
+def dirtyAfter (P : Params σ δ) : RM σ δ → Bool → List (Op σ (Draw σ δ)) → Bool
+  | _, d, [] => d
+  | m, d, op :: r =>
+    dirtyAfter P (step rc P m op)
+      (if op.clears then false else if op.replacesQuery then d || decide (m.core.size ≠ 0) else d) r
+
+theorem pure_of_empty (m : RM σ δ) (h : m.core.size = 0) : Pure m := by
+  intro i hi; omega
+
+theorem step_wf (P : Params σ δ) (m : RM σ δ) (op : Op σ (Draw σ δ)) (h : TreeWf m.core) :
+    TreeWf (step rc P m op).core := by
+  cases op with
+  | solve k ds => exact solve_wf P m k ds h
+  | clear => exact wf_empty
+  | clearQuery => exact wf_empty
+  | destroy => exact wf_empty
+  | setProblemDefinition id ss =>
+    simp only [step, setProblemDefinition]
+    split
+    · split <;> exact h
+    · exact h
+  | getPlannerData => exact h
+  | addStart s v => exact h
+  | setStartGoal ss => exact h
+  | clearSolutionPaths => exact h
+
+theorem step_lg (P : Params σ δ) (m : RM σ δ) (op : Op σ (Draw σ δ)) (hw : TreeWf m.core) (h : LGok m) :
+    LGok (step rc P m op) := by
+  cases op with
+  | solve k ds => exact solve_lg P m k ds hw h
+  | clear => intro i hi; simp [step, clear] at hi
+  | clearQuery => intro i hi; simp [step, clear] at hi
+  | destroy => intro i hi; simp [step] at hi
+  | setProblemDefinition id ss =>
+    simp only [step, setProblemDefinition]
+    split
+    · split <;> exact h
+    · exact h
+  | getPlannerData => exact h
+  | addStart s v => exact h
+  | setStartGoal ss => exact h
+  | clearSolutionPaths => exact h
+
+theorem step_core_of_not_solve (P : Params σ δ) (m : RM σ δ) (op : Op σ (Draw σ δ)) (h1 : op.clears = false)
+    (h2 : ∀ k ds, op ≠ .solve k ds) : (step rc P m op).core = m.core := by
+  cases op with
+  | solve k ds => exact absurd rfl (h2 k ds)
+  | clear => simp [Op.clears] at h1
+  | clearQuery => simp [Op.clears] at h1
+  | destroy => simp [Op.clears] at h1
+  | setProblemDefinition id ss =>
+    simp only [step, setProblemDefinition]
+    split
+    · split <;> rfl
+    · rfl
+  | getPlannerData => rfl
+  | addStart s v => rfl
+  | setStartGoal ss => rfl
+  | clearSolutionPaths => rfl
+
+theorem step_pure (P : Params σ δ) (m : RM σ δ) (op : Op σ (Draw σ δ)) (hw : TreeWf m.core)
+    (hp : Pure m ∨ (op.clears = true) ∨ (op.replacesQuery = true ∧ m.core.size = 0))
+    (hq : op.replacesQuery = true → m.core.size = 0 ∨ op.clears = true) :
+    Pure (step rc P m op) := by
+  cases op with
+  | solve k ds =>
+    rcases hp with hp | hp | hp
+    · exact solve_pure P m k ds hw hp
+    · simp [Op.clears] at hp
+    · simp [Op.replacesQuery] at hp
+  | clear => exact pure_of_empty _ rfl
+  | clearQuery => exact pure_of_empty _ rfl
+  | destroy => exact pure_of_empty _ rfl
+  | setProblemDefinition id ss =>
+    have h0 : m.core.size = 0 := by
+      rcases hq rfl with h | h
+      · exact h
+      · simp [Op.clears] at h
+    apply pure_of_empty
+    rw [step_core_of_not_solve P m _ rfl (by intro k ds h; cases h)]
+    exact h0
+  | setStartGoal ss =>
+    have h0 : m.core.size = 0 := by
+      rcases hq rfl with h | h
+      · exact h
+      · simp [Op.clears] at h
+    exact pure_of_empty _ h0
+  | getPlannerData =>
+    rcases hp with hp | hp | hp
+    · exact hp
+    · simp [Op.clears] at hp
+    · simp [Op.replacesQuery] at hp
+  | addStart s v =>
+    rcases hp with hp | hp | hp
+    · intro i hi hr
+      obtain ⟨pd, h1, h2⟩ := hp i hi hr
+      exact ⟨{ pd with starts := pd.starts ++ [(s, v)] }, by simp [step, h1], List.mem_append_left _ h2⟩
+    · simp [Op.clears] at hp
+    · simp [Op.replacesQuery] at hp
+  | clearSolutionPaths =>
+    rcases hp with hp | hp | hp
+    · intro i hi hr
+      obtain ⟨pd, h1, h2⟩ := hp i hi hr
+      exact ⟨{ pd with sols := [] }, by simp [step, h1], h2⟩
+    · simp [Op.clears] at hp
+    · simp [Op.replacesQuery] at hp
+
+theorem run_inv (P : Params σ δ) (ops : List (Op σ (Draw σ δ))) :
+    ∀ (m : RM σ δ) (d : Bool), TreeWf m.core → LGok m → (d = false → Pure m) →
+      TreeWf (run rc P m ops).core ∧ LGok (run rc P m ops) ∧
+        (dirtyAfter P m d ops = false → Pure (run rc P m ops)) := by
+  induction ops with
+  | nil => intro m d h1 h2 h3; exact ⟨h1, h2, by simpa [dirtyAfter, run] using h3⟩
+  | cons op r ih =>
+    intro m d h1 h2 h3
+    have := ih (step rc P m op)
+      (if op.clears then false else if op.replacesQuery then d || decide (m.core.size ≠ 0) else d)
+      (step_wf P m op h1) (step_lg P m op h1 h2)
+      (by
+        intro hd
+        by_cases hc : op.clears = true
+        · exact step_pure P m op h1 (Or.inr (Or.inl hc)) (fun _ => Or.inr hc)
+        · simp only [hc, Bool.false_eq_true, if_false] at hd
+          by_cases hq : op.replacesQuery = true
+          · simp only [hq, if_true, Bool.or_eq_false_iff, decide_eq_false_iff_not, ne_eq, Decidable.not_not] at hd
+            exact step_pure P m op h1 (Or.inr (Or.inr ⟨hq, hd.2⟩)) (fun _ => Or.inl hd.2)
+          · simp only [hq, Bool.false_eq_true, if_false] at hd
+            exact step_pure P m op h1 (Or.inl (h3 hd)) (fun h => absurd h hq))
+    simpa [run, dirtyAfter] using this
+
 end OmplModel.PlannerProto
